@@ -917,6 +917,7 @@ def run(repo: Repo, ctx) -> None:
     root_schema_rule(repo, ctx, 'C09.R11')
     _r12(repo, ctx)
     _r13(repo, ctx)
+    last_state_rule(repo, ctx, 'C09.R14')
 
 
 def _isa(repo: Repo, q: str) -> Set[str]:
@@ -1301,3 +1302,69 @@ def _r13(repo: Repo, ctx) -> None:
                f'from the backend\'s',
                f'{f.module.rel()}:{arm.lineno}',
                sample=f'{muts} -> cacheable = False')
+
+
+
+def last_state_rule(repo: Repo, ctx, rule: str) -> None:
+    """the state a worker remembers for REUSE_LAST_STATE is the one whose
+    pickle it sends back in the same reply.  The pool takes the returned
+    pickle as the identity of what the worker holds (`_last_pickled_state is
+    pickled_state`) and only updates it on a successful reply; a worker that
+    remembers a state before the compile call succeeded holds, after a
+    rejected statement, a state the pool attributes to another connection."""
+    ctx.floor(rule, 4)
+    n = 0
+    for modname in ('edb.server.compiler_pool.worker',
+                    'edb.server.compiler_pool.multitenant_worker'):
+        m = repo.modules.get(modname)
+        if m is None:
+            continue
+        for f in repo._funcs_of(m):
+            stores = [st for st in ast.walk(f.node)
+                      if isinstance(st, ast.Assign)
+                      and any(isinstance(t, ast.Name) and t.id == 'LAST_STATE'
+                              for t in st.targets)]
+            if not stores or not any(
+                    isinstance(g, ast.Global) and 'LAST_STATE' in g.names
+                    for g in ast.walk(f.node)):
+                continue
+            ctx.saw(f)
+            g = CFG(f.node)
+            comp = [x.id for x in g.nodes if any(
+                (call_name(c) or '').split('.')[-1].startswith(
+                    'compile_serialized_request')
+                for c in g.node_calls(x))]
+            if not comp:
+                raise AnalysisError(f'{rule}: {f.name} stores LAST_STATE but '
+                                    f'no compile_serialized_request* call '
+                                    f'was found')
+            short = modname.split('.')[-1]
+            for st in stores:
+                n += 1
+                ids = g.nodes_of(st)
+                ok = bool(ids) and all(g.always_before(i, comp) for i in ids)
+                ctx.ob(rule, f'{short}.{f.name}:remember-after-compile', ok,
+                       f'{f.name} stores LAST_STATE on a path that has not '
+                       f'(yet) completed the compile call: if the statement '
+                       f'is rejected, the worker holds a state whose pickle '
+                       f'the pool never recorded for it, and a later '
+                       f'REUSE_LAST_STATE request of the connection the pool '
+                       f'does associate with this worker is compiled '
+                       f'against it', f'{f.module.rel()}:{st.lineno}',
+                       sample='LAST_STATE = <state returned by the compile '
+                              'call>')
+                # and it is the state that is pickled into the reply
+                v = norm(st.value)
+                dumped = [norm(c.args[0]) for c in ast.walk(f.node)
+                          if isinstance(c, ast.Call)
+                          and norm(c.func) == 'pickle.dumps' and c.args]
+                n += 1
+                ctx.ob(rule, f'{short}.{f.name}:remembered=returned',
+                       v in dumped,
+                       f'{f.name} remembers `{v}` but pickles '
+                       f'{dumped or "nothing"} into the reply: the pool '
+                       f'identifies the worker\'s state by the returned '
+                       f'pickle', f'{f.module.rel()}:{st.lineno}',
+                       sample=f'LAST_STATE = {v}; pickle.dumps({v})')
+    if n < 4:
+        raise AnalysisError(f'{rule}: only {n} LAST_STATE obligations')
